@@ -184,6 +184,10 @@ pub struct ChainProg {
     /// the invocation is produced by a `macro_rules!` wrapper that receives the `let` names as
     /// `ident` metavariables (macro side only)
     pub mr_wrap: bool,
+    /// C14: 1 = every initial value and expression operand reaches the macro as an `expr` fragment of a
+    /// `macro_rules!` wrapper (one token tree, whatever is inside); 2 = the same texts parenthesised in
+    /// a direct invocation (the control); 0 = as written
+    pub frag: u8,
 }
 
 pub struct CG<'a> {
@@ -197,6 +201,9 @@ pub struct CG<'a> {
     /// C02: one callback inside a wrapper body counts its calls in a (Copy) local of the calling
     /// function, `__cnt`, which becomes part of the compared result: wrapper closures must capture
     /// the caller's variables the way the hand-written closure does
+    /// C14: closures whose body has an operator look-alike at its top level (`a <= b`) - legal only
+    /// where the operand reaches the macro as one token tree
+    pub lookalikes: bool,
     pub count_local: bool,
     pub count_used: bool,
     /// inside a wrapper whose closure must be `Fn` (sync `??`)
@@ -324,6 +331,10 @@ impl<'a> CG<'a> {
             self.count_used = true;
             let id = self.id();
             return format!("|v: {}| -> {} {{ __cnt += 1; xcbf::<{}, {}>({}, v) }}", a.name(), b.name(), a.name(), b.name(), id);
+        }
+        if self.lookalikes && matches!(b, Ty::Bool) && !matches!(a, Ty::Iter(_) | Ty::Ref(_)) && rb(self.rng, 0.6) {
+            let id = self.id();
+            return format!("|v: {}| inp::<i64>(7) <= xcbf::<{}, i64>({}, v)", a.name(), a.name(), id);
         }
         let id = self.id();
         let core = if self.shapes {
